@@ -18,6 +18,10 @@ const Enabled = false
 // held while waiting for the network or for time to pass.
 type Mutex = sync.Mutex
 
+// RWMutex is a plain [sync.RWMutex] in regular builds. It marks a lock whose
+// read acquisitions are scheduling points for the simulator.
+type RWMutex = sync.RWMutex
+
 // At is a scheduling point (no-op).
 func At(point string, detail ...string) {}
 
